@@ -304,6 +304,13 @@ def run(chk):
     outs = crawl.run_jobs([dict(mode='plain', scn=s) for s in scns])
     for s, o in zip(scns, outs):
         traces.append((s, 'catalogue', o))
+    # a killed and resumed crawl must keep the same scope (the permitted hosts are re-derived from the database)
+    for s in cs.c02_crash_catalogue(quick):
+        base = crawl.run_jobs([dict(mode='plain', scn=s)])[0]
+        pts = len(base['ev'])
+        for o in crawl.run_jobs([dict(mode='crash', scn=s, crash_at=k) for k in range(1, pts + 1)]):
+            if o.get('crashed'):
+                traces.append((s, 'crash', o))
     crawl.judge(chk, traces)
     chk.rule = ('(configuration, link record) vectors per interaction cluster and by composition against the real '
                 'filter list, judged by Scope.tla in TLC; plus complete crawls of sites offering out-of-scope links')
